@@ -338,6 +338,7 @@ class SimFS(object):
     def stat(self, path, *a, **k):
         p = self.abspath(path)
         self.stat_calls += 1
+        self.opens.append((p, 'stat'))          # asking the simulated disk about a path counts as having gone through the seam
         if p in self.files:
             return SimStat(0o100644, self.ino.get(p, 1), len(self.files[p]), self.mtime.get(p, 0.0))
         if self.isdir(p):
@@ -399,6 +400,74 @@ class SimFS(object):
         o.makedirs = o.mkdir = lambda *a, **k: None
         o.access = lambda p, mode=0, **k: _exists(p)
         return o
+
+    def _is_sim_path(self, p):
+        """does this path name something on the simulated disk?  Relative names (the simulated cwd), stored
+        files, and names inside a directory that holds stored files."""
+        if isinstance(p, int):
+            return False
+        try:
+            p = os.fspath(p)
+        except TypeError:
+            return False
+        if isinstance(p, bytes):
+            p = p.decode('utf-8', 'replace')
+        if not p.startswith('/'):
+            return True
+        a = self.abspath(p)
+        if a in self.files:
+            return True
+        d = posixpath.dirname(a)
+        root = '/' + posixpath.normpath(self.cwd).split('/')[1]
+        return d != '/' and (a == root or a.startswith(root + '/') or any(f.startswith(d + '/') for f in self.files))
+
+    def install_global_seam(self, patch_getcwd=True):
+        """Second line of the storage seam.  The module-level name `open` of the module under test is the
+        first; a rewrite that reaches the disk another way (io.open, codecs.open, pathlib.Path.open /
+        read_text / exists / stat, os.path.* and os.* of a module imported later) ends up in one of the
+        functions rebound here, which send paths on the simulated disk to SimFS and every other path to the
+        real function.  Returns the undo function."""
+        import builtins
+        import io
+        fs = self
+        real_open, real_io_open = builtins.open, io.open
+        saved = [(builtins, 'open', builtins.open), (io, 'open', io.open)]
+
+        def sim_open(file, mode='r', *a, **k):
+            if fs._is_sim_path(file):
+                return fs.open(os.fspath(file), mode)
+            return real_open(file, mode, *a, **k)
+        builtins.open = sim_open
+        io.open = sim_open
+
+        def route(name, sim_fn, nargs=1):
+            real = getattr(os, name)
+
+            def f(*a, **k):
+                if a and all(fs._is_sim_path(x) for x in a[:nargs]):
+                    return sim_fn(*a[:nargs])
+                return real(*a, **k)
+            f.__name__ = name
+            saved.append((os, name, real))
+            setattr(os, name, f)
+        route('stat', fs.stat)
+        route('lstat', fs.stat)
+        route('listdir', fs.listdir)
+        route('remove', fs.os_remove)
+        route('unlink', fs.os_remove)
+        route('rename', fs.os_rename, 2)
+        route('replace', fs.os_rename, 2)
+        route('mkdir', lambda p: None)
+        route('makedirs', lambda p: None)
+        route('access', lambda p: fs.exists(p) or fs.isdir(p))
+        if patch_getcwd:
+            saved.append((os, 'getcwd', os.getcwd))
+            os.getcwd = lambda: fs.cwd
+
+        def undo():
+            for mod, name, val in saved:
+                setattr(mod, name, val)
+        return undo
 
     def install_os_seam(self, module):
         """Rebind every module-level name of `module` that refers to the real `os` / `os.path` modules or
